@@ -1096,7 +1096,10 @@ impl GlobalInferenceCtx<'_> {
                     let new_ty = match &self.bodies[expr] {
                         Expr::IntLiteral(num) => match *previous_ty {
                             Ty::IInt(0) if *num > i32::MAX as u64 => Ty::IInt(64).into(),
-                            Ty::UInt(0) if *num > u32::MAX as u64 => Ty::UInt(64).into(),
+                            // `{uint}` is compiled as an `i32` (just like `{int}`), so it has to be
+                            // widened as soon as the literal doesn't fit into an `i32`. with
+                            // `u32::MAX` here, `3000000000 > 5` was false
+                            Ty::UInt(0) if *num > i32::MAX as u64 => Ty::UInt(64).into(),
                             _ => continue,
                         },
                         Expr::Ref {
